@@ -23,6 +23,7 @@ VariantBad(doc, loads, S, v) ==
   IF v.ok # loads THEN (IF loads THEN "rejected a well-formed type system" ELSE "loaded an ill-formed type system")
   ELSE IF ~v.ok THEN (IF v.files # <<>> /\ Cardinality(Violated(doc)) = 1 /\ v.errfile \notin Range(v.files) THEN "load error names a file none of the involved definitions is in" ELSE "")
   ELSE IF Range(v.types) # S.types THEN "set of types differs"
+  ELSE IF Range(v.builtins) # S.builtins THEN "set of types marked built-in differs"
   ELSE IF Range(v.dirs) # S.dirs THEN "set of directives differs"
   ELSE IF ~RelSame(S.possible, S.types, v.possible) THEN "possible-types relation differs"
   ELSE IF ~RelSame(S.implements, S.types, v.implements) THEN "implements relation differs"
@@ -32,7 +33,7 @@ VariantBad(doc, loads, S, v) ==
 
 Verdict(c) ==
   LET loads == Loads(c.doc)
-      S == IF loads THEN Schema(c.doc) ELSE [types |-> {}, dirs |-> {}, possible |-> <<>>, implements |-> <<>>, q |-> <<>>, m |-> <<>>, s |-> <<>>]
+      S == IF loads THEN Schema(c.doc) ELSE [types |-> {}, dirs |-> {}, possible |-> <<>>, implements |-> <<>>, q |-> <<>>, m |-> <<>>, s |-> <<>>, builtins |-> {}]
       badv == {j \in 1..Len(c.variants) : VariantBad(c.doc, loads, S, c.variants[j]) # ""}
   IN IF badv = {} THEN [class |-> "ok", variant |-> 0, violated |-> {}]
      ELSE LET j == Min(badv) IN [class |-> VariantBad(c.doc, loads, S, c.variants[j]), variant |-> j, violated |-> Violated(c.doc)]
